@@ -147,6 +147,8 @@ impl Drop for WorkerCounterGuard {
     fn drop(&mut self) {
         let (waker_queue, counter) = &*self.0.inner;
         if counter.dec() {
+            #[cfg(actix_net_verif)]
+            crate::verif::point(crate::verif::Point::AfterDec(self.0.idx));
             waker_queue.wake(WakerInterest::WorkerAvailable(self.0.idx));
         }
     }
@@ -300,6 +302,20 @@ impl ServerWorker {
 
         // service factories initialization channel
         let (factory_tx, factory_rx) = std::sync::mpsc::sync_channel::<io::Result<()>>(1);
+
+        #[cfg(actix_net_verif)]
+        if crate::verif::in_thread() {
+            verif_worker::start_in_thread(
+                idx,
+                factories,
+                conn_rx,
+                stop_rx,
+                counter,
+                waker_queue,
+                config,
+            )?;
+            return Ok(pair);
+        }
 
         // outline of following code:
         //
@@ -728,4 +744,120 @@ fn wrap_worker_services(services: Vec<(usize, usize, BoxedServerService)>) -> Ve
             });
             services
         })
+}
+
+#[cfg(actix_net_verif)]
+pub(crate) mod verif_worker {
+    //! Verification hooks: the real `ServerWorker` future is built on the calling thread and
+    //! spawned on a `LocalSet` of its own, which the harness polls by hand.
+    use std::cell::RefCell;
+
+    use super::*;
+    use crate::verif::WorkerView;
+
+    /// Shares the worker with the state readers; the worker is dropped as soon as the task is
+    /// (completion, or a panic inside `poll`), exactly as when the task owns it.
+    pub(crate) struct SharedWorker(pub(crate) Rc<RefCell<Option<ServerWorker>>>);
+
+    impl Future for SharedWorker {
+        type Output = ();
+
+        fn poll(self: Pin<&mut Self>, cx: &mut Context<'_>) -> Poll<()> {
+            let mut slot = self.0.borrow_mut();
+            let res = match slot.as_mut() {
+                Some(worker) => Pin::new(worker).poll(cx),
+                None => Poll::Ready(()),
+            };
+            if res.is_ready() {
+                slot.take();
+            }
+            res
+        }
+    }
+
+    impl Drop for SharedWorker {
+        fn drop(&mut self) {
+            if let Ok(mut slot) = self.0.try_borrow_mut() {
+                slot.take();
+            }
+        }
+    }
+
+    #[allow(clippy::too_many_arguments)]
+    pub(crate) fn start_in_thread(
+        idx: usize,
+        factories: Vec<Box<dyn InternalServiceFactory>>,
+        conn_rx: UnboundedReceiver<Conn>,
+        stop_rx: UnboundedReceiver<Stop>,
+        counter: Counter,
+        waker_queue: WakerQueue,
+        config: ServerWorkerConfig,
+    ) -> io::Result<()> {
+        let local = tokio::task::LocalSet::new();
+        let guard = local.enter();
+        crate::verif::note_worker_starting(idx);
+
+        // same steps as the arbiter branch of `ServerWorker::start`; the service factories of the
+        // harness resolve immediately, so their futures are polled once.
+        let mut services = Vec::new();
+        for (fidx, factory) in factories.iter().enumerate() {
+            let mut fut = factory.create();
+            let waker = futures_util::task::noop_waker();
+            let mut cx = Context::from_waker(&waker);
+            match fut.as_mut().poll(&mut cx) {
+                Poll::Ready(Ok((token, svc))) => services.push((fidx, token, svc)),
+                Poll::Ready(Err(_)) => {
+                    return Err(io::Error::new(
+                        io::ErrorKind::Other,
+                        format!("can not start server service {}", fidx),
+                    ))
+                }
+                Poll::Pending => panic!("verif: service factories must resolve immediately at start"),
+            }
+        }
+
+        let worker = ServerWorker {
+            conn_rx,
+            stop_rx,
+            services: wrap_worker_services(services).into_boxed_slice(),
+            counter: WorkerCounter::new(idx, waker_queue, counter),
+            factories: factories.into_boxed_slice(),
+            state: Default::default(),
+            shutdown_timeout: config.shutdown_timeout,
+        };
+        let shared = Rc::new(RefCell::new(Some(worker)));
+        local.spawn_local(SharedWorker(shared.clone()));
+        drop(guard);
+        crate::verif::store_worker(idx, local, shared);
+        Ok(())
+    }
+
+    pub(crate) fn counter_raw(handle: &WorkerHandleAccept) -> usize {
+        handle.counter.counter.load(Ordering::SeqCst)
+    }
+
+    pub(crate) fn view(worker: &Rc<RefCell<Option<ServerWorker>>>) -> Option<WorkerView> {
+        let slot = worker.try_borrow().ok()?;
+        let w = slot.as_ref()?;
+        let now = Instant::now();
+        Some(WorkerView {
+            state: match &w.state {
+                WorkerState::Available => "available",
+                WorkerState::Unavailable => "unavailable",
+                WorkerState::Restarting(_) => "restarting",
+                WorkerState::Shutdown(_) => "shutdown",
+            },
+            shutdown_tick_in: match &w.state {
+                WorkerState::Shutdown(s) => Some(s.timer.deadline().saturating_duration_since(now)),
+                _ => None,
+            },
+            shutdown_elapsed: match &w.state {
+                WorkerState::Shutdown(s) => Some(now.saturating_duration_since(s.start_from)),
+                _ => None,
+            },
+            services: w.services.iter().map(|s| format!("{:?}", s.status)).collect(),
+            counter_raw: w.counter.inner.1.counter.load(Ordering::SeqCst),
+            queued: w.conn_rx.len(),
+        })
+    }
 }
